@@ -187,6 +187,8 @@ class Scheduler(object):
         self.preempted_mid = 0      # switches away from an actor that was not blocked/done
         self._short = {}
         self._gc_was_enabled = False
+        self.on_switch_out = None
+        self.on_switch_in = None
 
     # -- actor management ---------------------------------------------------
     def spawn(self, name, fn, start_at=0, parent=None, kind="proc"):
@@ -212,6 +214,8 @@ class Scheduler(object):
             return
         self.tls.actor = a
         a.started = True
+        if self.on_switch_in is not None:
+            self.on_switch_in(a)
         if self.trace_files:
             sys.settrace(self._global_trace)
         try:
@@ -226,6 +230,8 @@ class Scheduler(object):
             sys.settrace(None)
         if self.tearing_down:
             return
+        if self.on_switch_out is not None:
+            self.on_switch_out(a)
         a.state = "done"
         self._log(a, "exit", "ok" if a.exc is None else "exc:" + a.exc[0])
         p = a.parent
@@ -255,6 +261,20 @@ class Scheduler(object):
         self.events.append(ev)
         self.last_event = ev
 
+    def _park(self, a):
+        """Hand the baton back to the scheduler and wait to be chosen again.
+        The switch hooks let a check keep per-process state (e.g. a module's
+        globals) private to each simulated process."""
+        if self.on_switch_out is not None:
+            self.on_switch_out(a)
+        self.control.set()
+        a.ev.wait()
+        a.ev.clear()
+        if self.tearing_down or a.state == "killed":
+            raise Killed()
+        if self.on_switch_in is not None:
+            self.on_switch_in(a)
+
     def yield_point(self, label, detail=None):
         a = self.current()
         if a is None:
@@ -262,11 +282,7 @@ class Scheduler(object):
         if self.tearing_down:
             raise Killed()
         self._log(a, label, detail)
-        self.control.set()
-        a.ev.wait()
-        a.ev.clear()
-        if self.tearing_down or a.state == "killed":
-            raise Killed()
+        self._park(a)
 
     def note(self, label, detail=None):
         """Record an event without yielding."""
@@ -282,11 +298,7 @@ class Scheduler(object):
         a.state = "blocked"
         a.blocked_on = child
         self._log(a, "wait", child.name)
-        self.control.set()
-        a.ev.wait()
-        a.ev.clear()
-        if self.tearing_down or a.state == "killed":
-            raise Killed()
+        self._park(a)
 
     def block(self, what):
         """Mark the calling actor blocked on `what` and yield (sim lock)."""
@@ -294,11 +306,7 @@ class Scheduler(object):
         a.state = "blocked"
         a.blocked_on = what
         self._log(a, "block", str(what))
-        self.control.set()
-        a.ev.wait()
-        a.ev.clear()
-        if self.tearing_down or a.state == "killed":
-            raise Killed()
+        self._park(a)
 
     # -- faults ---------------------------------------------------------------
     def kill(self, actor, group):
